@@ -236,12 +236,18 @@ theorem x509_issued_bounds (cl : Claimer) (m : Mode) (now vnow casNow : Int) (c 
       omega
   have e : softcasCreate casNow leaf so.backdate =
       if tsub leaf.na (leaf.nb + so.backdate) = 0 then .rej .lifetime0
-      else .ok ⟨trunc (if leaf.nb = 0 then casNow + wrap64 (-1 * so.backdate) else leaf.nb),
-                trunc (if leaf.na = 0 then casNow + tsub leaf.na (leaf.nb + so.backdate) else leaf.na)⟩ := rfl
+      else if encodable (if leaf.nb = 0 then casNow + wrap64 (-1 * so.backdate) else leaf.nb) ∧
+              encodable (if leaf.na = 0 then casNow + tsub leaf.na (leaf.nb + so.backdate) else leaf.na)
+        then .ok ⟨trunc (if leaf.nb = 0 then casNow + wrap64 (-1 * so.backdate) else leaf.nb),
+                  trunc (if leaf.na = 0 then casNow + tsub leaf.na (leaf.nb + so.backdate) else leaf.na)⟩
+        else .rej .encode := rfl
   rw [e, if_neg hnb, if_neg hna] at h2
   by_cases hl : tsub leaf.na (leaf.nb + so.backdate) = 0
   · rw [if_pos hl] at h2; cases h2
-  · rw [if_neg hl] at h2; cases h2; exact hb
+  · rw [if_neg hl] at h2
+    by_cases he : encodable leaf.nb ∧ encodable leaf.na
+    · rw [if_pos he] at h2; cases h2; exact hb
+    · rw [if_neg he] at h2; cases h2
 
 /-- what a request asks for as `notBefore`: the absolute instant, or `now + d` (zero = nothing asked) -/
 def reqNb (now : Int) (so : SignOpts) : Int := relativeTime now so.nb
